@@ -39,12 +39,49 @@ static const int GUARD_PIXELS = 8;
 // Pix(pat, x, y, k) of ImageWriters.tla
 static long long pix(long long pat, long long x, long long y, long long k)
 {
-  static const long long coef[2][6] = {{7, 13, 5, 3, 11, 0}, {29, 3, 17, 1, 7, 100}};
-  const long long *a = coef[pat == 2 ? 1 : 0];
-  return (a[0] * x + a[1] * y + a[2] * k + a[3] * (x / 251) + a[4] * (y / 251) + a[5]) % 251;
+  if (pat >= 100 && pat <= 355) return ((pat - 100) + 64 * (x + 2 * y) + 13 * k) % 256;   // sweep patterns
+  static const long long coef[3][7] = {{7, 13, 5, 3, 11, 0, 251}, {29, 3, 17, 1, 7, 100, 251}, {7, 13, 5, 3, 11, 0, 256}};
+  const long long *a = coef[pat >= 1 && pat <= 3 ? pat - 1 : 0];
+  return (a[0] * x + a[1] * y + a[2] * k + a[3] * (x / 251) + a[4] * (y / 251) + a[5]) % a[6];
 }
 
-static float codeToFloat(long long c) { return (float)(c - 100) / 4.0f; }
+// codes 1000 + i: floats that generic code tends to mishandle, identified by their BIT PATTERN (so NaNs compare too)
+static const uint32_t kSpecialBits[] = {
+    0x80000000u, // -0.0
+    0x00800000u, // smallest normal
+    0x00000001u, // smallest subnormal
+    0x807fffffu, // largest negative subnormal
+    0x7f7fffffu, // FLT_MAX
+    0xff7fffffu, // -FLT_MAX
+    0x7f800000u, // +inf
+    0xff800000u, // -inf
+    0x7fc00000u, // quiet NaN
+    0xffc12345u, // negative quiet NaN with a payload
+    0x3dcccccdu, // 0.1f (not dyadic)
+    0xba83126fu, // -0.001f
+    0x40490fdbu, // pi
+    0x7149f2cau, // 1e30f
+    0x0da24260u, // 1e-30f
+    0x4b800001u, // 2^24 + 2: the last bit of the mantissa
+};
+static const int kSpecials = (int)(sizeof kSpecialBits / sizeof kSpecialBits[0]);
+
+static float codeToFloat(long long c)
+{
+  if (c >= 1000 && c < 1000 + kSpecials) {
+    float f;
+    memcpy(&f, &kSpecialBits[c - 1000], 4);
+    return f;
+  }
+  return (float)(c - 100) / 4.0f;
+}
+
+static Json bitsToCode(uint32_t bits)
+{
+  for (int i = 0; i < kSpecials; ++i)
+    if (kSpecialBits[i] == bits) return Json((long long)(1000 + i));
+  return Json();
+}
 
 static Json floatToCode(double f)
 {
@@ -161,7 +198,9 @@ static Decoded decodeFile(const std::string &path)
                                  : ((uint32_t)q[3] | (uint32_t)q[2] << 8 | (uint32_t)q[1] << 16 | (uint32_t)q[0] << 24);
           float f;
           memcpy(&f, &bits, 4);
-          px.push(floatToCode((double)f * factor));
+          Json special = factor == 1.0 ? bitsToCode(bits) : Json();
+          if (!special.isNull()) px.push(special);
+          else px.push(floatToCode((double)f * factor));
         }
         q += bytesPer;
       }
